@@ -45,12 +45,13 @@ inductive CondE
 
 /-! ## reference semantics -/
 
+def boolOfVal : Except Fault Val → Except Fault Bool
+  | .ok (.bool b) => .ok b
+  | .ok _ => .error .other
+  | .error f => .error f
+
 def evalB (ρ : Env) (β : List Bool) : BVal → Except Fault Bool
-  | .cmp op a b =>
-    match eval ρ (.cmp op a b) with
-    | .ok (.bool b) => .ok b
-    | .ok _ => .error .other
-    | .error f => .error f
+  | .cmp op a b => boolOfVal (eval ρ (.cmp op a b))
   | .var i =>
     match β[i]? with
     | some b => .ok b
